@@ -302,4 +302,11 @@ def main_wrapper(fn):
     except ToolError as e:
         print("TOOL-ERROR: %s" % e, file=sys.stderr)
         sys.exit(2)
+    except SystemExit:
+        raise
+    except BaseException as e:  # a bug in the machinery is a tool error, never a verdict
+        import traceback
+        traceback.print_exc()
+        print("TOOL-ERROR: internal error in the check: %r" % (e,), file=sys.stderr)
+        sys.exit(2)
     sys.exit(rc)
